@@ -43,6 +43,7 @@ class LayerBuilder:
     fragment out of real odxtools classes, and finalises it like the unit tests do."""
 
     def __init__(self, name: str, kind: str = "ecu", container: Optional[str] = None):
+        self.examples: Dict[str, List[str]] = {}
         from odxtools.nameditemlist import NamedItemList
         from odxtools.odxlink import DocType, OdxDocFragment
         self.name = name
